@@ -207,7 +207,7 @@ func (d *Descriptor) readAsSlice(out Outputter, data []byte) (n int, err error) 
 
 	case FieldTypeStruct, FieldTypeSlice, FieldTypeString:
 		count, n := plenccore.ReadVarUint(data)
-		if n < 0 {
+		if n < 0 || (n == 0 && len(data) != 0) {
 			return 0, fmt.Errorf("corrupt data looking for WTSlice count")
 		}
 		offset := n
@@ -254,6 +254,9 @@ func (d *Descriptor) readAsMapEntry(out Outputter, data []byte) (n int, err erro
 	var offset int
 	for offset < l {
 		wt, index, n := plenccore.ReadTag(data[offset:])
+		if n <= 0 {
+			return 0, fmt.Errorf("invalid tag in %s", d.Name)
+		}
 		offset += n
 
 		var elt *Descriptor
@@ -306,6 +309,9 @@ func (d *Descriptor) readAsStruct(out Outputter, data []byte) (n int, err error)
 	var offset int
 	for offset < l {
 		wt, index, n := plenccore.ReadTag(data[offset:])
+		if n <= 0 {
+			return 0, fmt.Errorf("invalid tag in %s", d.Name)
+		}
 		offset += n
 
 		var elt *Descriptor
@@ -358,7 +364,7 @@ func (d *Descriptor) readAsStruct(out Outputter, data []byte) (n int, err error)
 // case the name is omitted from each entry
 func (d *Descriptor) readAsJSON(out Outputter, data []byte) (n int, err error) {
 	count, n := plenccore.ReadVarUint(data)
-	if n < 0 {
+	if n < 0 || (n == 0 && len(data) != 0) {
 		return 0, fmt.Errorf("corrupt data looking for WTSlice count")
 	}
 	offset := n
@@ -391,12 +397,15 @@ func (d *Descriptor) readJSONObjectKV(out Outputter, data []byte) (n int, err er
 
 	for offset < len(data) {
 		wt, index, n := plenccore.ReadTag(data[offset:])
+		if n <= 0 {
+			return 0, fmt.Errorf("invalid tag in %s", d.Name)
+		}
 		offset += n
 		switch index {
 		case 1:
 			// When using this for reading arrays we simply don't see this index
 			l, n := plenccore.ReadVarUint(data[offset:])
-			if n < 0 {
+			if n <= 0 {
 				return 0, fmt.Errorf("bad length on string field")
 			}
 			offset += n
@@ -410,7 +419,7 @@ func (d *Descriptor) readJSONObjectKV(out Outputter, data []byte) (n int, err er
 			offset += n
 		case 2:
 			v, n := plenccore.ReadVarUint(data[offset:])
-			if n < 0 {
+			if n <= 0 {
 				return 0, fmt.Errorf("invalid map type field")
 			}
 			jType = jsonType(v)
@@ -419,7 +428,7 @@ func (d *Descriptor) readJSONObjectKV(out Outputter, data []byte) (n int, err er
 			switch jType {
 			case jsonTypeString:
 				l, n := plenccore.ReadVarUint(data[offset:])
-				if n < 0 {
+				if n <= 0 {
 					return 0, fmt.Errorf("bad length on string field")
 				}
 				offset += n
@@ -476,7 +485,7 @@ func (d *Descriptor) readJSONObjectKV(out Outputter, data []byte) (n int, err er
 
 			case jsonTypeNumber:
 				l, n := plenccore.ReadVarUint(data[offset:])
-				if n < 0 {
+				if n <= 0 {
 					return 0, fmt.Errorf("bad length on JSON number field")
 				}
 				offset += n
